@@ -118,6 +118,10 @@ type child struct {
 	chainSeq int
 	hook     bool
 	lastKey  string
+	// key of the last call after which the miner was found running: a block seal (and the SignHashAllowed behind it) can only come
+	// from the miner, possibly long after it was told to stop (an in-flight Seal still signs and the block is inserted later), so
+	// seals are attributed causally to this call, not to whatever call happens to be running when the block shows up
+	miningStarter string
 }
 
 func (c *child) emit(r Rec) {
@@ -269,6 +273,7 @@ func (c *child) startNode() error {
 		return fmt.Errorf("unlock A: %v", err)
 	}
 	c.seenTx = map[common.Hash]bool{}
+	c.miningStarter = ""
 	c.lastHead = svc.BlockChain().CurrentBlock().NumberU64()
 	return c.dial()
 }
@@ -478,11 +483,14 @@ func (c *child) lateMining() {
 		return
 	}
 	before := c.signCount()
+	if c.lastKey != "" {
+		c.miningStarter = c.lastKey
+	}
 	c.settleMining(before)
-	ev := c.evidence(nil)
+	ev, _ := c.evidence(nil)
 	delta := c.signCount() - before
-	if c.lastKey != "" && (ev != "" || delta > 0) {
-		c.emit(Rec{T: "late", Key: c.lastKey, Evidence: ev, Delta: delta, Count: c.signCount()})
+	if c.miningStarter != "" && (ev != "" || delta > 0) {
+		c.emit(Rec{T: "late", Key: c.miningStarter, Evidence: ev, Delta: delta, Count: c.signCount()})
 	}
 }
 
@@ -505,7 +513,7 @@ func (c *child) settleMining(before uint64) {
 	}
 	stable := 0
 	lastN, lastH := c.signCount(), c.svc.BlockChain().CurrentBlock().NumberU64()
-	for i := 0; i < 100 && stable < 3; i++ {
+	for i := 0; i < 150 && stable < 8; i++ {
 		time.Sleep(40 * time.Millisecond)
 		n, h := c.signCount(), c.svc.BlockChain().CurrentBlock().NumberU64()
 		if n == lastN && h == lastH && !c.svc.IsMining() {
@@ -770,12 +778,29 @@ func (c *child) doCall(key string, t target, v variant) {
 		time.Sleep(15 * time.Millisecond) // let a `go miner.Start` launched by the call run
 	}
 	if c.svc != nil && c.stack.Server() != nil && c.svc.IsMining() {
+		c.miningStarter = key
 		c.settleMining(before)
 	} else {
 		c.restore()
 	}
-	ev := c.evidence(raw)
+	ev, nSealed := c.evidence(raw)
 	delta := c.signCount() - before
+	if nSealed > 0 && c.miningStarter != "" && c.miningStarter != key {
+		// a block sealed by the miner that an earlier call started: hand it (and the signing operations behind it) to that call
+		d := uint64(nSealed)
+		if d > delta {
+			d = delta
+		}
+		delta -= d
+		c.emit(Rec{T: "late", Key: c.miningStarter, Evidence: "sealed", Delta: d, Count: c.signCount()})
+		var keep []string
+		for _, e := range strings.Split(ev, "+") {
+			if e != "sealed" && e != "" {
+				keep = append(keep, e)
+			}
+		}
+		ev = strings.Join(keep, "+")
+	}
 	c.emit(Rec{T: "call", Key: key, Tr: t.tr, Ns: t.cb.Namespace, Name: t.cb.Name, Rcvr: strings.TrimPrefix(t.cb.Rcvr, "*"), GoName: t.cb.GoName, IsSub: t.cb.IsSub,
 		Variant: v.String(), Args: aj, Outcome: outcome, Delta: delta, Count: c.signCount(), Evidence: ev, Ms: time.Since(t0).Milliseconds()})
 }
@@ -800,10 +825,11 @@ func errClass(err error) string {
 //	rawtx:  an RLP transaction in the result whose sender is a keystore account
 //	pooltx: a transaction from a keystore account that appeared in the pool during the call
 //	sealed: the chain head advanced to a block whose clique seal recovers to a keystore account
-func (c *child) evidence(raw json.RawMessage) string {
+func (c *child) evidence(raw json.RawMessage) (string, int) {
 	if c.svc == nil || c.stack == nil || c.stack.Server() == nil {
-		return ""
+		return "", 0
 	}
+	nSealed := 0
 	ksa := c.keystoreAddrs()
 	var ev []string
 	var strs []string
@@ -897,6 +923,7 @@ func (c *child) evidence(raw json.RawMessage) string {
 				copy(a[:], crypto.Keccak256(pk[1:])[12:])
 				if ksa[a] {
 					ev = append(ev, "sealed")
+					nSealed++
 				}
 			}
 		}
@@ -911,7 +938,7 @@ func (c *child) evidence(raw json.RawMessage) string {
 			uniq = append(uniq, e)
 		}
 	}
-	return strings.Join(uniq, "+")
+	return strings.Join(uniq, "+"), nSealed
 }
 
 // restore puts the node back into the state every call starts from: A unlocked, B locked, not mining, GC normal.
